@@ -28,6 +28,7 @@ PROP = {
              "elements at sizes 0, 5, 23; positional Insert (1, n copies, range) and Remove on Array / SegmentedArray at sizes 0, 4, 9; MergeTo for 8 "
              "source/destination combinations x 4 key patterns (ordered before / after, interleaved with common keys, empty destination); extract of a "
              "key absent / present in the destination followed by re-insertion - each with every k-th allocation, element copy and functor failure. "
+             "Tree merges with a history (700 quick / 6000 thorough per tree type, node capacities 4/1, 4/2, 6/1 indexed, 32): one tree built ascending or shuffled, a burst of insertions next to the edge that faces the other tree, 0..maxR removals at that edge (drained edge leaves), the other tree of 1..6*maxN keys below or above, merge in either direction; conservation by identities, element-object count, order, no copies. "
              "Model level: the mergeto / rempred / ext / reins operations inside the C01 histories (chained-bucket part). "
              "distinct_nontrivial = distinct (operation instance, fault kind, k) that raised."),
     "runtime_only": ["ASan/UBSan", "memory-manager ledger and element counters after every case"],
